@@ -135,9 +135,9 @@ var helperComposites = []string{"Change", "ChangeRatio", "ChangePercent"}
 // CheckC01: join alignment in every indicator.
 func CheckC01(c *Ctx) {
 	run := c.Run
-	run.Technique = "stream-shape calculus: the anchor (input position of element 0) of every operand of every zip/join in the indicator Compute methods, symbolic in the periods; operands must be provably aligned or match the frozen intrinsic-offset table"
-	run.Explanation = "Decides one structural necessary condition of C01, not the numeric values: at every point where an indicator combines two or three streams element-wise (Operate/Operate3, the arithmetic wrappers, hand-written zip loops) the operands must refer to the same input position for every admissible configuration, unless the documented formula itself refers to an earlier element (8 tabled joins, compared as symbolic expressions). A skewed join evaluates the formula on values from different days for every non-constant series. Arithmetic operators, constants, window contents, seeds and rounding are NOT decided by this check."
-	run.Trusted = []string{"go/types", "intrinsic-offset table (rules.intrinsicOffsets)", "admissibility table Γ", "declared IdlePeriod contracts of sub-indicators (each is C02's obligation)", "Fourier–Motzkin entailment"}
+	run.Technique = "value-term comparison: the calculus derives, for every output of all 61 indicator Compute methods, a term over the input series (delays, sub-indicator operators, arithmetic, inlined stateless closures, running folds); each term is compared as a rational-function normal form with the formula transcribed from the type's doc comment. Loop-free recurrences (EMA, RMA, SMMA, KAMA, moving sum, NVI, OBV) are compared as guarded commands on every ordering of their inputs. Plus the anchor (input position of element 0) of every operand of every join, symbolic in the periods"
+	run.Explanation = "Decides the structural part of C01: (1) formula: the composition each indicator computes - which sub-indicators with which periods applied to which inputs, delayed by how many days, combined by which arithmetic and constants - equals the documented formula as an identity of rational functions over uninterpreted operators, for every configuration (periods are symbols); this holds for every input series because both sides are the same function of the series. (2) formula/recurrence: one step of each loop-free recurrence equals the documented update on every sign pattern of its comparisons (ties included). (3) join-alignment: at every element-wise join the operands refer to the same input position unless the documented formula prescribes an offset. NOT decided: the windows kept in the search tree and rings (MovingMax/MovingMin/MovingStd/Wma loop bodies, SuperTrend's selection rule, helper.Since), which are named operators here; warm-up lengths are C02's; floating-point rounding."
+	run.Trusted = []string{"go/types", "formula table rules.FormulaSpecs / recurrenceSpecs transcribed from the doc comments", "intrinsic-offset table (rules.intrinsicOffsets)", "admissibility table Γ", "declared IdlePeriod contracts of sub-indicators (each is C02's obligation)", "Fourier–Motzkin entailment", "normal forms of internal/sym (polynomial arithmetic over big rationals)"}
 	roots := IndicatorComputes(c.P)
 	run.Count("indicator_computes", len(roots))
 	run.Floor("indicator_computes", 61)
@@ -168,6 +168,7 @@ func CheckC01(c *Ctx) {
 	}
 	run.Floor("joins", 95)
 	run.Floor("intrinsic_joins", 6)
+	c.checkFormulas()
 	for k, v := range intrinsicOffsets {
 		run.Assume("intrinsic offset " + k + " = " + v.Skew + ": " + v.Why)
 	}
